@@ -8,7 +8,10 @@ C04_SIGS = ("rl-trace:RetriesJustified", "rl-trace:EndsAsLastAttempt")
 
 def run_driver(chk, nrand):
     wd = vlib.scratch("verif-rl-")
-    t = vlib.go_test("", "^TestVerifRequestLoop$", env=dict(VERIF_OUT=wd, VERIF_SEED=str(chk.seed), VERIF_N=str(nrand)), timeout=1700, race=True)
+    # (C09 is the property about what concurrent reporters of one outage do to the shared state: here a race report between two
+    # accesses of the client IS a verdict - no re-run without the detector)
+    t = vlib.go_test("", "^TestVerifRequestLoop$", env=dict(VERIF_OUT=wd, VERIF_SEED=str(chk.seed), VERIF_N=str(nrand)), timeout=1700, race=True,
+                     race_rerun=False)
     resf = os.path.join(wd, "rl_result.json")
     viol = []
     if "WARNING: DATA RACE" in t["out"]:
